@@ -707,6 +707,8 @@ class Facts:
                 out.add(r)
             elif t.get("callee") in self.fns:
                 out.add(t["callee"])
+            else:
+                out |= self.blanket_targets(t)
             # closures passed as arguments to external higher-order functions are invoked there
             # (handled by closure_args below).
         # closures created in this function and handed to anything are considered callable here
@@ -719,21 +721,40 @@ class Facts:
         return out
 
     def virtual_targets(self, t):
-        """Closures that may be the target of a call through `dyn Fn(..)`: matched by the
-        argument tuple type of the call."""
+        """Closures that may be the target of a call through `dyn Fn(..)`: every closure of the
+        crate whose parameter types equal the argument tuple of the call (type-based dispatch
+        over-approximation; closures are the only implementors of Fn in the crate)."""
         targs = t.get("callee_targs") or []
         want = targs[1] if len(targs) > 1 else None
         out = set()
         for c in self.j["closures"]:
-            m = re.search(r"fn\((\(.*?\))\)", c["sig"])
-            got = None
-            sig = c["sig"]
-            # sig looks like: Binder { value: extern "RustCall" fn((char,)) -> bool, ...
-            m = re.search(r"fn\(\((.*?)\)\)\s*->", sig)
-            if m:
-                got = "(" + m.group(1) + ")"
-            if want is None or got is None or norm_ty(got) == norm_ty(want):
+            got = "(" + ", ".join(c.get("inputs", [])) + ("," if len(c.get("inputs", [])) == 1 else "") + ")"
+            if want is None or norm_ty(got) == norm_ty(want):
                 out.add(c["key"])
+        return out
+
+    def blanket_targets(self, t):
+        """Local impl fns reached through std blanket impls: `x.into()` -> From::from,
+        `x.try_into()` -> TryFrom::try_from, `x.to_string()` -> Display::fmt."""
+        path = t.get("callee_path") or ""
+        targs = t.get("callee_targs") or []
+        out = set()
+        m = re.search(r"convert::(Try)?Into::(try_)?into$", path)
+        if m and len(targs) >= 2:
+            src, dst = norm_ty(targs[0]), norm_ty(targs[1])
+            want_trait = "std::convert::TryFrom" if m.group(1) else "std::convert::From"
+            for f in self.fns.values():
+                im = f.j.get("impl")
+                if not im or im.get("trait") != want_trait:
+                    continue
+                if norm_ty(im["self"]) == dst and norm_ty(src) in norm_ty(im.get("trait_full", "")):
+                    out.add(f.key)
+        if re.search(r"string::ToString::to_string$", path) and targs:
+            src = norm_ty(targs[0])
+            for f in self.fns.values():
+                im = f.j.get("impl")
+                if im and im.get("trait") == "std::fmt::Display" and norm_ty(im["self"]) == src:
+                    out.add(f.key)
         return out
 
     def callgraph(self):
@@ -791,7 +812,7 @@ class Facts:
 
 def norm_ty(s):
     s = re.sub(r"\s+", "", s)
-    s = s.replace("internal::ids::", "").replace("internal::", "")
-    s = s.rstrip(",)") + ")" if s.startswith("(") else s
+    s = re.sub(r"'[a-z_]+", "'_", s)
+    s = s.replace("&'_", "&")
     s = s.replace(",)", ")")
     return s
